@@ -12,10 +12,20 @@ TRUSTED_BASE = [
 ]
 
 
-def rnd(kind, profile, count, length, prios="small", keys=12, hashmode=0, seed_off=0):
-    return dict(args=["random", "--seed", "{seed}", "--count", str(count), "--len", str(length),
-                      "--kind", kind, "--profile", profile, "--keys", str(keys), "--prios", prios,
-                      "--hashmode", str(hashmode)])
+def rnd(kind, profile, count, length, prios="small", keys=12, hashmode=0, exclude="", boost=""):
+    a = ["random", "--seed", "{seed}", "--count", str(count), "--len", str(length),
+         "--kind", kind, "--profile", profile, "--keys", str(keys), "--prios", prios,
+         "--hashmode", str(hashmode)]
+    if exclude:
+        a += ["--exclude", exclude]
+    if boost:
+        a += ["--boost", boost]
+    return dict(args=a)
+
+
+# iterator kinds other than the one a property is about
+NOT_ITERMUT = "iter,intoiter,drain,sortediter"
+NO_ITERS = "itermut,iter,intoiter,drain,sortediter"
 
 
 def builds(kind, maxn, prios=3):
@@ -27,31 +37,33 @@ def tiers(quick, thorough_extra):
 
 
 PROPS = {
+    # drop: fields of the trace lines this property does NOT compare ('t' = comparison counts, 'hq' = raw tables)
     "C01": dict(
-        theorems=[],
+        theorems=[], drop=["t"],
         gens=tiers(
-            [builds("pq", 5), rnd("pq", "core", 2000, 60), rnd("pq", "bulk", 1000, 60),
-             rnd("pq", "iter", 800, 50), rnd("pq", "core", 500, 40, prios="extreme"),
+            [builds("pq", 5), rnd("pq", "core", 2000, 60), rnd("pq", "bulk", 1000, 60, exclude="serde,deser,eq"),
+             rnd("pq", "iter", 800, 50, exclude=NOT_ITERMUT), rnd("pq", "core", 500, 40, prios="extreme"),
              rnd("pq", "core", 300, 300, keys=80, prios="wide")],
             [builds("pq", 7), rnd("pq", "all", 20000, 80), rnd("pq", "core", 2000, 600, keys=300, prios="wide")]),
     ),
     "C02": dict(
-        theorems=[],
+        theorems=[], drop=["t"],
         gens=tiers(
-            [builds("dpq", 5), rnd("dpq", "core", 2000, 60), rnd("dpq", "bulk", 1000, 60),
-             rnd("dpq", "iter", 800, 50), rnd("dpq", "core", 500, 40, prios="extreme"),
+            [builds("dpq", 5), rnd("dpq", "core", 2000, 60), rnd("dpq", "bulk", 1000, 60, exclude="serde,deser,eq"),
+             rnd("dpq", "iter", 800, 50, exclude=NOT_ITERMUT), rnd("dpq", "core", 500, 40, prios="extreme"),
              rnd("dpq", "core", 300, 300, keys=80, prios="wide")],
             [builds("dpq", 7), rnd("dpq", "all", 20000, 80), rnd("dpq", "core", 2000, 600, keys=300, prios="wide")]),
     ),
     "C03": dict(
-        theorems=[],
+        theorems=[], drop=["t", "hq"],
         gens=tiers(
             [rnd("both", "core", 3000, 60), rnd("both", "core", 1000, 60, prios="wide", keys=30),
-             rnd("both", "bulk", 1000, 50), builds("pq", 4), builds("dpq", 4)],
+             rnd("both", "bulk", 1000, 50, exclude="serde,deser,eq,convert"), builds("pq", 4), builds("dpq", 4),
+             rnd("both", "iter", 500, 40, exclude="itermut,drain,sortediter")],
             [rnd("both", "all", 20000, 80), builds("pq", 6), builds("dpq", 6)]),
     ),
     "C04": dict(
-        theorems=[],
+        theorems=[], drop=["t"],
         gens=tiers(
             [rnd("both", "all", 3000, 60), rnd("both", "iter", 1500, 50), rnd("both", "core", 500, 300, keys=100, prios="wide"),
              builds("pq", 4), builds("dpq", 4)],
@@ -60,33 +72,39 @@ PROPS = {
     "C05": dict(
         theorems=['C05_pq_cost', 'C05_dpq_cost'],
         gens=tiers(
-            [rnd("both", "core", 200, 1500, keys=1000, prios="wide"), rnd("both", "bulk", 300, 200, keys=200, prios="wide"),
-             rnd("both", "core", 1500, 60)],
+            [rnd("both", "core", 200, 1500, keys=1000, prios="wide"),
+             rnd("both", "bulk", 300, 200, keys=200, prios="wide", exclude="serde,deser,eq,sortedvec,intovec,extend"),
+             rnd("both", "core", 1500, 60), rnd("both", "iter", 300, 60, exclude=NOT_ITERMUT)],
             [rnd("both", "core", 400, 6000, keys=4000, prios="wide"), rnd("both", "all", 10000, 80)]),
     ),
     "C06": dict(
-        theorems=[],
+        theorems=[], drop=["t", "hq"],
         gens=tiers(
-            [rnd("both", "iter", 2500, 50), rnd("both", "bulk", 1000, 50), builds("pq", 4), builds("dpq", 5)],
-            [rnd("both", "iter", 20000, 80), builds("dpq", 7)]),
+            [rnd("both", "iter", 2500, 50, exclude="itermut,iter,intoiter,drain", boost="sortediter:3"),
+             rnd("both", "bulk", 1000, 50, exclude="serde,deser,eq,retain,retainmut,intovec", boost="sortedvec:6"),
+             builds("pq", 4), builds("dpq", 5)],
+            [rnd("both", "iter", 20000, 80, exclude="itermut,iter,intoiter,drain", boost="sortediter:3"), builds("dpq", 7)]),
     ),
     "C07": dict(
-        theorems=[],
+        theorems=[], drop=["t"],
         gens=tiers(
-            [rnd("both", "bulk", 4000, 50), rnd("both", "bulk", 800, 120, keys=60, prios="wide")],
-            [rnd("both", "bulk", 30000, 80)]),
+            [rnd("both", "bulk", 4000, 50, exclude="serde,deser,eq,retain,retainmut,sortedvec,intovec,clone"),
+             rnd("both", "bulk", 800, 120, keys=60, prios="wide", exclude="serde,deser,eq,retain,retainmut,sortedvec,intovec,clone")],
+            [rnd("both", "bulk", 30000, 80, exclude="serde,deser,eq,retain,retainmut")]),
     ),
     "C08": dict(
-        theorems=[],
+        theorems=[], drop=["t"],
         gens=tiers(
-            [rnd("both", "iter", 2500, 50), rnd("both", "bulk", 1500, 50), builds("pq", 4), builds("dpq", 4)],
-            [rnd("both", "iter", 15000, 80), rnd("both", "bulk", 15000, 80), builds("dpq", 6)]),
+            [rnd("both", "iter", 2500, 50, exclude=NOT_ITERMUT, boost="popif:4"),
+             rnd("both", "bulk", 1500, 50, exclude="serde,deser,eq,fromvec,fromiter,extend,append,convert,clone,sortedvec,intovec", boost="retain:4,retainmut:4,popif:3"),
+             builds("pq", 4), builds("dpq", 4)],
+            [rnd("both", "iter", 15000, 80, exclude=NOT_ITERMUT, boost="popif:4"), builds("dpq", 6)]),
     ),
     "C09": dict(
-        theorems=['C09_itermut', 'C09_itermut_exact', 'C09_itermut_fused', 'C09_itermut_adaptor_len'],
+        theorems=['C09_itermut', 'C09_itermut_exact', 'C09_itermut_fused', 'C09_itermut_adaptor_len'], drop=["t", "hq"],
         gens=tiers(
-            [rnd("both", "iter", 5000, 40)],
-            [rnd("both", "iter", 40000, 60)]),
+            [rnd("both", "iter", 5000, 40, exclude=NOT_ITERMUT, boost="itermut:2")],
+            [rnd("both", "iter", 40000, 60, exclude=NOT_ITERMUT, boost="itermut:2")]),
     ),
     "C10": dict(
         theorems=[], mode="faults",
@@ -95,49 +113,51 @@ PROPS = {
             [rnd("both", "fuse", 30000, 60)]),
     ),
     "C11": dict(
-        theorems=[],
+        theorems=[], drop=["t"],
         gens=tiers(
-            [rnd("both", "core", 4000, 60), builds("pq", 5), builds("dpq", 5)],
-            [rnd("both", "core", 30000, 80), builds("pq", 6), builds("dpq", 6)]),
+            [rnd("both", "core", 4000, 60, boost="pushinc:5,pushdec:5"), builds("pq", 5), builds("dpq", 5)],
+            [rnd("both", "core", 30000, 80, boost="pushinc:5,pushdec:5"), builds("pq", 6), builds("dpq", 6)]),
     ),
     "C12": dict(
-        theorems=[],
+        theorems=[], drop=["t", "hq"],
         gens=tiers(
-            [rnd("both", "core", 3000, 60), rnd("both", "iter", 1500, 50), rnd("both", "bulk", 1000, 50)],
-            [rnd("both", "all", 30000, 80)]),
+            [rnd("both", "core", 3000, 60, boost="peekmut:4,getmut:4,get:3"),
+             rnd("both", "iter", 1500, 50, exclude=NOT_ITERMUT),
+             rnd("both", "bulk", 1000, 50, exclude="serde,deser,eq,extend,fromiter")],
+            [rnd("both", "all", 30000, 80, exclude="extend,fromiter")]),
     ),
     "C13": dict(
-        theorems=['C13_dq', 'C13_dq_adaptor_len', 'C13_sorted_adaptor_len'],
+        theorems=['C13_dq', 'C13_dq_adaptor_len', 'C13_sorted_adaptor_len'], drop=["t", "hq"],
         gens=tiers(
-            [rnd("both", "iter", 5000, 40)],
-            [rnd("both", "iter", 40000, 60)]),
+            [rnd("both", "iter", 5000, 40, exclude="itermut")],
+            [rnd("both", "iter", 40000, 60, exclude="itermut")]),
     ),
     "C14": dict(
-        theorems=[],
+        theorems=[], drop=["t", "hq"],
         gens=tiers(
-            [rnd("both", "bulk", 4000, 50)],
-            [rnd("both", "bulk", 30000, 80)]),
+            [rnd("both", "bulk", 4000, 50, exclude="serde,deser,retain,retainmut,sortedvec,intovec", boost="eq:6,clone:4")],
+            [rnd("both", "bulk", 30000, 80, exclude="serde,deser", boost="eq:6,clone:4")]),
     ),
     "C15": dict(
-        theorems=[],
+        theorems=[], drop=["t"],
         gens=tiers(
-            [rnd("both", "bulk", 4000, 50)],
-            [rnd("both", "bulk", 30000, 80)]),
+            [rnd("both", "bulk", 4000, 50, exclude="retain,retainmut,sortedvec,intovec,append,extend,fromiter,fromvec", boost="serde:6,deser:6")],
+            [rnd("both", "bulk", 30000, 80, boost="serde:6,deser:6")]),
     ),
     "C16": dict(
-        theorems=[],
+        theorems=[], drop=["t"],
         gens=tiers(
-            [rnd("both", "iter", 4000, 50)],
-            [rnd("both", "iter", 30000, 80)]),
+            [rnd("both", "iter", 4000, 50, exclude="itermut,iter,intoiter,sortediter", boost="drain:6,clear:20")],
+            [rnd("both", "iter", 30000, 80, exclude="itermut", boost="drain:6,clear:20")]),
     ),
     "C17": dict(
-        theorems=[],
+        theorems=[], drop=["t"],
         gens=tiers(
             [rnd("both", "cap", 4000, 60)],
             [rnd("both", "cap", 30000, 80)]),
     ),
     "C18": dict(
-        theorems=[],
+        theorems=[], drop=["t", "hq"], same_seed=True,
         gens=tiers(
             [rnd("both", "all", 1000, 60, hashmode=m) for m in (0, 1, 2, 3)],
             [rnd("both", "all", 8000, 80, hashmode=m) for m in (0, 1, 2, 3)]),
